@@ -1375,7 +1375,53 @@ def c03_22(ctx):
 
 
 
+def c03_24(ctx):
+    """S256Point.parse, the entry point for public keys of any format, evaluated whole (field arithmetic, square root, constructor: the repository's
+    own code): the three encodings of G and of -G parse to the point; every other FIRST BYTE of a 33- or 65-byte string (00, 01, 05, ff; 04 on
+    33 bytes; 02 / 03 on 65 bytes), every other LENGTH (0, 1, 31, 34, 64, 66), an x that is not on the curve, an (x, y) pair off the curve and
+    all-zero strings are refused -- a string is never read under another format's rules after its own format refused it"""
+    from sa.cells import ClassRef, Evaluator, Obj, Raised, Undecided
+    spec = "pecc:S256Point.parse"
+    mod, fn = rl.get(ctx, spec)
+    P_ = SECP256K1["P"]
+    GX, GY = SECP256K1["GX"], SECP256K1["GY"]
+    gx, gy, ngy = GX.to_bytes(32, "big"), GY.to_bytes(32, "big"), (P_ - GY).to_bytes(32, "big")
+    par = GY & 1
+    off_x = next(x for x in range(1, 50) if pow((x ** 3 + 7) % P_, (P_ - 1) // 2, P_) != 1).to_bytes(32, "big")
+    good = [("compressed G", bytes([2 + par]) + gx, (GX, GY)), ("compressed -G", bytes([3 - par]) + gx, (GX, P_ - GY)), ("uncompressed G", b"\x04" + gx + gy, (GX, GY)),
+            ("uncompressed -G", b"\x04" + gx + ngy, (GX, P_ - GY)), ("x-only G", gx, (GX, GY if par == 0 else P_ - GY))]
+    bad = [("33 bytes starting with %02x" % b, bytes([b]) + gx) for b in (0, 1, 4, 5, 0xFF)] + [("65 bytes starting with %02x" % b, bytes([b]) + gx + gy) for b in (0, 2, 3, 5, 0xFF)]
+    bad += [("65 bytes: 33 zero bytes and a valid x", bytes(33) + gx), ("33 zero bytes", bytes(33)), ("65 zero bytes", bytes(65)),   # (32 zero bytes are the library's x-only spelling of the point at infinity, by design: parse_xonly)
+            ("a compressed key whose x is not on the curve", b"\x02" + off_x), ("an x-only key whose x is not on the curve", off_x),
+            ("an uncompressed pair off the curve", b"\x04" + gx + (GY + 1).to_bytes(32, "big")), ("x = p (not a field element)", b"\x02" + P_.to_bytes(32, "big"))]
+    bad += [("%d bytes" % ln, (b"\x02" + gx + gy)[:ln] if ln < 66 else b"\x04" + gx + gy + b"\x00") for ln in (0, 1, 31, 34, 64, 66)]
+    n = 0
+    try:
+        for label, data, want in good:
+            n += 1
+            try:
+                r = Evaluator(ctx.repo, max_steps=3000000).call(spec, [data], self_obj=ClassRef("pecc", "S256Point"))
+            except Raised as x:
+                return [ctx.bad(spec, "the encoding %s is refused (%s)" % (label, x.name), fn, mod, key="parse-cells")]
+            got = (r.attrs["x"].attrs.get("num"), r.attrs["y"].attrs.get("num")) if isinstance(r, Obj) and isinstance(r.attrs.get("x"), Obj) and isinstance(r.attrs.get("y"), Obj) else None
+            if got != want:
+                return [ctx.bad(spec, "the encoding %s parses to another point" % label, fn, mod, key="parse-cells")]
+        for label, data in bad:
+            n += 1
+            try:
+                r = Evaluator(ctx.repo, max_steps=3000000).call(spec, [data], self_obj=ClassRef("pecc", "S256Point"))
+            except Raised:
+                continue
+            what = "the point at infinity" if isinstance(r, Obj) and r.attrs.get("x") is None else "a point"
+            return [ctx.bad(spec, "%s (%s…) is accepted as %s: it is not an encoding of a public key" % (label, data.hex()[:12], what), fn, mod, key="parse-cells")]
+    except Undecided as u:
+        return [ctx.err(spec, "S256Point.parse not evaluable: %s" % u, fn, mod)]
+    ctx.count("cells", n)
+    return [ctx.ok(spec, "%d strings: the encodings of G and -G parse to the point, %d malformed ones (first byte, length, off-curve, zero) are refused" % (n, len(bad)), fn, mod, key="parse-cells")]
+
+
 OBLIGATIONS = [
+    ("C03.24", "CELLS public key parser", c03_24),
     ("C03.22", "CELLS membership by spelling", c03_22),
     ("C03.23", "CELLS constructor membership", c03_23),
     ("C03.20", "CELLS small fields (bounded)", c03_20),
